@@ -48,6 +48,80 @@ def collect(ck, worlds, metrics_sets, knobs=None):
     return priced, dict(zip(keys, outs))
 
 
+def mid_part(ck):
+    """Mapspaces too large for Mapspace.tla (3 memories, bounds up to 8): the candidates are every perfectly factorising
+    assignment of every template make_pmappings generates (TLC enumerates the assignments, spec/LoopNest executes and prices
+    each one), so this part decides 'no tile shape of any generated template beats the mapper' - the tile-shape half of the
+    property - on worlds where latency, leak energy and EDP separate tile shapes.  Template completeness stays with the
+    main part."""
+    from checks import c07, c08
+    from checks import tile_common as tc
+    thorough = ck.tier == "thorough"
+    cases, meta = [], {}
+    # quick tier: EDP only (the metric whose optimum needs both pruning objectives); thorough: all three
+    for mi, metric in enumerate(mc.METRICS):
+        if not thorough and metric != "ENERGY_DELAY_PRODUCT":
+            continue
+        # the world families in which C08 separates pruning objectives (memory-bound, leaky inner memory)
+        worlds = c07.worlds_for(ck, 3 if not thorough else 8, 140 + 300 * (mi != 2))[:-1] + \
+            c08.leaky_worlds(ck, 1 if not thorough else 3, 230 + 300 * (mi != 2))
+        outs = tc.collect(ck, worlds, (metric,))
+        tcases, index, verdicts = tc.execute_all(ck, worlds, outs, "c01mid_%d" % mi)
+        mapped = mc.run_mapper(ck, [(w, (metric,), None, True) for w in worlds])
+        per_world = {}
+        for c in tcases:
+            w, t, k = index[c["id"]]
+            v = verdicts[c["id"]]
+            if not v.get("wellformed") or not v["cap"]:
+                continue
+            # assignments that fill a memory exactly and are lost to the float32 usage formula: known finding of C08
+            f = t["formulas"]
+            if any(w["size"].get(m) and v["footprint"][m] == w["size"][m]
+                   and not isinstance(f.get("usage<SEP>memory<SEP>" + m, [None] * (k + 1))[k], (str, type(None)))
+                   and mc.fr(f["usage<SEP>memory<SEP>" + m][k]) > 1 for m in v["footprint"]):
+                ck.extra["mid_exact_fit_assignments_set_aside"] = ck.extra.get("mid_exact_fit_assignments_set_aside", 0) + 1
+                continue
+            per_world.setdefault(w["id"], []).append(
+                (c["nodes"], mc.objective(metric, Fraction(*v["energy"]), Fraction(*v["latency"]))))
+        for w, o, res in zip(worlds, outs, mapped):
+            ck.evaluations += 1
+            if "exception" in o or "exception" in res:
+                if "exception" in res:
+                    ck.impl_errors += 1
+                    if ck.impl_error_sample is None:
+                        ck.impl_error_sample = {"case": {"world": w["id"], "metric": metric}, "traceback": res["traceback"]}
+                continue
+            cl = per_world.get(w["id"], [])
+            cands = [[x] for n, x in cl]
+            ret = [[mc.objective(metric, mc.fr(r["totals"]["energy"]), mc.fr(r["totals"]["latency"]))] for r in res["rows"]]
+            rc, rr = mc.rank_columns(cands, ret)
+            cid = "mid%d/%s" % (w["id"], metric)
+            cases.append({"id": cid, "kind": "optimum", "cands": rc, "ret": rr})
+            meta[cid] = (w, metric, cl, cands, ret)
+            if len({c[0] for c in cands}) >= 2:
+                ck.count_nontrivial(cid)
+    if not cases:
+        raise Machinery("mid part: no mapper run produced a result")
+    verdicts = mc.fronts_verdicts(ck, cases, tag="midfronts")
+    n_assign = 0
+    for cid, v in verdicts.items():
+        w, metric, cl, cands, ret = meta[cid]
+        ck.traces += 1
+        n_assign += len(cl)
+        if v["uncovered"]:
+            k = v["uncovered"] - 1
+            best_ret = min((r[0] for r in ret), default=None)
+            ck.violation("C01/template-assignment-beats-mapper/%s" % metric,
+                         "world %d (%s %s), metric %s: assignment %s of a generated template has objective %s by execution, "
+                         "best returned by the mapper is %s (%d valid assignments over all templates)"
+                         % (w["id"], w["kind"], w["bound"], metric, ln.short(cl[k][0]), cands[k][0], best_ret, len(cl)),
+                         {"world": w, "nodes": cl[k][0], "metric": metric, "candidate_objective": str(cands[k][0]),
+                          "mapper_best": str(best_ret), "kind": "mid"})
+    ck.extra["mid_worlds_x_metrics"] = len(cases)
+    ck.extra["mid_valid_assignments_priced_by_execution"] = n_assign
+    ck.extra["mid_mapper_strictly_better_than_every_assignment"] = sum(1 for v in verdicts.values() if v["better"])
+
+
 def run(ck: Check):
     thorough = ck.tier == "thorough"
     ck.rule = ("micro-specs: single Einsum (matmul/matvec/reduce/elementwise, rank bounds 2-8), DRAM + finite inner memory "
@@ -113,6 +187,7 @@ def run(ck: Check):
                        "mapper_better_than_every_enumerated": v["better"]})
     ck.extra["mapper_strictly_better_than_enumeration"] = sum(1 for v in verdicts.values() if v["better"])
     ck.extra["mapspace_sizes"] = {str(w["id"]): len(priced[w["id"]]) for w in worlds}
+    mid_part(ck)
 
 
 def replay(path):
